@@ -77,7 +77,7 @@ func init() {
 			return scale(&GenCfg{
 				Slabs: quickSlabs, MinOps: 1, MaxOps: 60,
 				W: map[string]int{"mset": 22, "mget": 6, "mhas": 4, "mrem": 14, "mpop": 2, "msetN": 7, "mremN": 5, "styp": 2, "mgrow": 2, "mupdN": 3,
-					"mbadget": 3, "mbadrem": 3, "mbadhas": 2, "reget": 2, "reopen": 2, "commit": 1, "evict": 1,
+					"mbadget": 3, "mbadrem": 3, "mbadhas": 2, "reget": 2, "reopen": 2, "commit": 1, "evict": 1, "mshrink": 2,
 					"app": 2, "rem": 1},
 				Roots:   [][]RootSpec{{{K: "map", Addr: 1, TI: 2}}, {{K: "map", Addr: 1, TI: 2}}, {{K: "cmap", Addr: 1, TI: 3}}, {{K: "map", Addr: 0, TI: 2}}},
 				MaxBulk: 100, Keys: []int{12, 64, 400},
@@ -103,7 +103,7 @@ func init() {
 				W: map[string]int{
 					"app": 8, "ins": 8, "set": 8, "rem": 9, "get": 2, "pop": 2, "appN": 5, "remN": 5,
 					"mset": 14, "mget": 2, "mrem": 9, "mpop": 2, "msetN": 5, "mremN": 4, "styp": 2,
-					"reget": 3, "reopen": 2, "commit": 2, "evict": 1, "badget": 1, "mbadget": 1, "grow": 1, "mgrow": 1, "setN": 3, "mupdN": 2,
+					"reget": 3, "reopen": 2, "commit": 2, "evict": 1, "badget": 1, "mbadget": 1, "grow": 1, "mgrow": 1, "setN": 3, "mupdN": 2, "shrink": 1, "mshrink": 1,
 				},
 				Roots: [][]RootSpec{
 					{{K: "arr", Addr: 1, TI: 1}},
